@@ -152,9 +152,18 @@ class C06(Prop):
                     loops.append({"step": k, "skip": str(e)})
                     continue
                 loops.append({"step": k, "path": mp[:-2], "j": mp[-1], "carried": progs[k]["carried"]})
+        # trivially-dead erase steps of the greedy driver (the inputs of a rotated setup that became unused)
+        dces = []
+        for k, (name, path, before, after, *rest) in enumerate(log):
+            if name == "dce":
+                mb, cb = convs[k]
+                try:
+                    dces.append({"step": k, "path": cb.map_path(path, mb), "carried": progs[k]["carried"]})
+                except (ac.Unsupported, KeyError) as e:
+                    dces.append({"step": k, "skip": str(e)})
         kinds = sorted({n.replace("SetupAwaitOverlapPattern", "") for (n, *_r) in log})
         return {"progs": progs, "n_steps": len(log), "kinds": kinds, "d26_steps": loop_steps_with_other_setups(log),
-                "moves": moves, "loops": loops}
+                "moves": moves, "loops": loops, "dces": dces}
 
     def requests(self, case, impl_out):
         if case["kind"] == "d26_literal":
@@ -172,6 +181,12 @@ class C06(Prop):
                 continue
             before = impl_out["progs"][m["step"]]["prog"]
             reqs.append({"fn": "c06.loop", "args": {"path": m["path"], "j": m["j"], "fresh": before["nvars"] + 1000, "body": before["body"],
+                                                    "fields": before["fields"]}})
+        for m in impl_out.get("dces", []):
+            if "skip" in m:
+                continue
+            before = impl_out["progs"][m["step"]]["prog"]
+            reqs.append({"fn": "c01.step", "args": {"rule": "dce", "path": m["path"], "j": 0, "body": before["body"],
                                                     "fields": before["fields"]}})
         return reqs
 
@@ -246,6 +261,22 @@ class C06(Prop):
             # is this step covered by C06.loop_overlap_preserves (all hypotheses evaluated by the driver)?
             self.loop_cov["loop_steps"] += 1
             self.loop_cov["covered_by_loop_overlap_preserves" if a["ok"]["covered"] else "not_covered:" + a["ok"]["why"]] += 1
+        for m in impl_out.get("dces", []):
+            if "skip" in m:
+                self.loop_cov["dce_steps_oracle_only"] += 1
+                continue
+            a = answers[k]
+            k += 1
+            real_after = impl_out["progs"][m["step"] + 1]["prog"]["body"]
+            good = ("ok" in a and a["ok"]["after"] is not None and a["ok"].get("side", True)
+                    and ac.canon_ast(a["ok"]["after"]) == ac.canon_ast(real_after))
+            if m.get("carried"):
+                self.loop_cov["carried_dce_steps_certified" if good else "carried_dce_steps_oracle_only"] += 1
+                continue
+            if not good:
+                return {"model_error": f"dce step {m['step']} at {m['path']}: the model's erase (side condition: results unused) does not "
+                                       f"reproduce the real rewrite", "dce": m}
+            self.loop_cov["dce_steps_certified"] += 1
         return dict(impl_out, progs=progs)
 
     def extra_coverage(self):
